@@ -16,8 +16,20 @@ import numpy as np
 from harness.common import Check, main, sx, core, z3
 from harness.stubs import SymRng
 from harness.util import env_array, ScriptedRng
+from harness.loop_base import LoopCheck
 
 PARAMS2 = ["alpha", "beta_par"]
+
+
+class _Loop09(LoopCheck):
+    """Every resampling the sampler performs inside a run -- one per tempering
+    iteration and the final enlargement -- observed at the generator stub and
+    at the kernel's input."""
+
+    pid = "C09"
+    props = {"C09"}
+    flows = ("plain",)
+    adaptive_N3 = ()
 
 
 class C09(Check):
@@ -54,9 +66,20 @@ class C09(Check):
         # fields are re-assigned (as every mutate() does), then the set is resampled
         for n in ([2] if tier == "quick" else [2, 3]):
             out.append({"name": f"reassign-N{n}", "N": n, "b0": 0.0, "b1": 0.5, "size": None, "D": 4, "reassign": True})
+        for c in _Loop09().configs(tier):
+            c["kind"] = "loop"
+            c["name"] = "loop-" + c["name"]
+            out.append(c)
         return out
 
+    def ctx_for(self, cfg, seed):
+        if cfg.get("kind") == "loop":
+            return _Loop09().ctx_for(cfg, seed)
+        return super().ctx_for(cfg, seed)
+
     def harness(self, cfg):
+        if cfg.get("kind") == "loop":
+            return _Loop09().harness(cfg)
         from aspire.samples import SMCSamples
 
         N, b0, b1, size = cfg["N"], cfg["b0"], cfg["b1"], cfg["size"]
@@ -132,6 +155,8 @@ class C09(Check):
         return h
 
     def to_cex(self, fl):
+        if fl["cfg"].get("kind") == "loop":
+            return _Loop09().to_cex(fl)
         cfg = fl["cfg"]
         env = fl["env"]
         N = cfg["N"]
@@ -154,6 +179,8 @@ class C09(Check):
         }
 
     def replay(self, cex):
+        if cex["cfg"].get("kind") == "loop":
+            return _Loop09().replay(cex)
         from aspire.samples import SMCSamples
 
         cfg = cex["cfg"]
